@@ -42,14 +42,17 @@ func drivers(quick bool) []conc.Driver {
 		s := s
 		ds = append(ds, conc.Driver{Name: s.Name(), Cfg: cfg, Mk: func() vrt.Run { return s.Mk() }, Fallback: []int{0, 1, 2, 3, 4, 5, 6}})
 	}
-	// many runs (the size ladder of the run list): 257 chunks of one value; the schedules without
-	// preemption only (every choice of who goes on when the running thread blocks or ends), race oracle on
-	{
-		s := mdrv.Scenario{Chunk: 1, Concurrent: true, Cycles: []int{257}}
+	// many runs (the size ladder of the run list): 2^k-1, 2^k, 2^k+1 chunks of one value, ONE schedule each
+	// (the canonical one; the schedules of such a run are beyond enumeration), race oracle on
+	for _, n := range enum.Ladder(15, 513) {
+		if quick && n != 257 && n != 64 {
+			continue
+		}
+		s := mdrv.Scenario{Chunk: 1, Concurrent: true, Cycles: []int{n}}
 		cfg0 := cfg
-		cfg0.PreemptBound = 0
-		cfg0.Horizon = 400000
-		ds = append(ds, conc.Driver{Name: s.Name() + "-nopreempt", Cfg: cfg0, Mk: func() vrt.Run { return s.Mk() }})
+		cfg0.Canonical = true
+		cfg0.Horizon = 1000000
+		ds = append(ds, conc.Driver{Name: s.Name() + "-canonical", Cfg: cfg0, Mk: func() vrt.Run { return s.Mk() }})
 	}
 	return ds
 }
